@@ -9,3 +9,4 @@ import AJ.Props.C11MpSlot
 import AJ.Props.C11MpDoc
 import AJ.Props.C11MemRun
 import AJ.Props.C11MpMemRun
+import AJ.Props.DocGen
